@@ -141,6 +141,10 @@ def xspecStep (sp : XPool α) : XOp α → Option (XPool α × Obs α)
     match sp[i]? with
     | some (some _) => some (sp, .err "AttributeError")
     | _ => some (sp, .err "noobj")
+  | .skipBad i e =>
+    match sp[i]? with
+    | some (some _) => some (sp.set i (some [.error e]), .unit)
+    | _ => some (sp, .err "noobj")
   | .peek _ _ => none
   | .copy _ => none
 
